@@ -147,7 +147,6 @@ def run(ctx: Ctx) -> None:
     ctx.check(all(k == v for k, v in pairs.items()) and set(pairs) >= {"int", "float", "len"}, "R-C21.2",
               f"{mb.qualname}#mock-names", mb.where, {"mock": pairs},
               "a builtin is shadowed by the mock of a *different* builtin during tracing")
-    mock_admits: dict = {}
     for bname, dunder in (("int", "__int__"), ("float", "__float__"), ("len", "__len__")):
         # the mock is either a class with __new__ or a function
         node = None
@@ -163,35 +162,8 @@ def run(ctx: Ctx) -> None:
         ctx.check(called == [dunder] and fallback == [f"builtins.{bname}"], "R-C21.2", f"{node.qualname}#forward", node.where,
                   {"dunder_calls": called, "fallback": fallback},
                   f"mocked `{bname}()` does not forward traced objects to `{dunder}` / plain values to builtins.{bname}")
-        # sibling agreement: the classes each mock recognises as traced values (isinstance tests on its first parameter)
-        first = (node.node.args.posonlyargs + node.node.args.args)
-        first = first[1].arg if node.node.name == "__new__" and len(first) > 1 else (first[0].arg if first else None)
-        admitted: set[str] = set()
-        seen_consts: set[str] = set()
-        for c2 in calls_in(node.node):
-            if dotted(c2.func) == "isinstance" and len(c2.args) == 2 and isinstance(c2.args[0], ast.Name) and c2.args[0].id == first:
-                todo = [c2.args[1]]
-                while todo:
-                    t = todo.pop()
-                    if isinstance(t, ast.BinOp) and isinstance(t.op, ast.BitOr):
-                        todo += [t.left, t.right]
-                    elif isinstance(t, ast.Tuple):
-                        todo += t.elts
-                    elif isinstance(t, ast.Name) and idx.module_constant(mock_mod.name, t.id) is not None and t.id not in seen_consts:
-                        seen_consts.add(t.id)  # a module-level constant naming the classes
-                        todo.append(idx.module_constant(mock_mod.name, t.id))
-                    else:
-                        admitted.add(dotted(t).rsplit(".", 1)[-1])
-        mock_admits[bname] = (admitted, node)
-    if all(a for a, _ in mock_admits.values()):
-        union = set().union(*(a for a, _ in mock_admits.values()))
-        for bname, (a, node) in mock_admits.items():
-            ctx.check(a == union, "R-C21.2", f"{node.qualname}#same-traced-classes-as-sibling-mocks", node.where,
-                      {"recognised": sorted(a), "recognised_by_some_sibling_mock": sorted(union)},
-                      f"mocked `{bname}()` hands a traced value of class {sorted(union - a)} to the real builtin (TypeError in a comptime "
-                      f"function although the same body is accepted as a regular function); the sibling mocks forward it")
-    else:
-        ctx.undecided("R-C21.2", f"{mock_mod.name}#same-traced-classes-as-sibling-mocks", mock_mod.rel, "a mock recognises traced values by something other than an isinstance test on its argument")
+    from . import c21_mocks
+    c21_mocks.run(ctx, mock_mod)  # sibling agreement of the three mocks, interpreted
 
     # ---------------- R-C21.3 reflected fallback
     obj_mod = idx.module("guppylang_internals.tracing.object")
